@@ -19,6 +19,12 @@ from .sym import (CLS_DICT, CLS_LIST, CLS_SET, INTERN, NONE, TH, V, Val, clsof, 
 IntS = z3.IntSort()
 
 
+def exc_canon_name(n: str) -> str:
+    from .sym import exc_canon
+
+    return exc_canon(n)
+
+
 class CallMixin:
     def ev_Call(self, node: ast.Call, st: State) -> List[Out]:
         if front.is_logging_call(node):
@@ -322,6 +328,20 @@ class CallMixin:
         if init is None:
             if any(b in ("Enum",) for b in ci.bases):
                 raise Unsupported("enum construction", node)
+            if "dataclass" in ci.decorators:
+                # generated __init__: positional / keyword arguments are stored in declaration order
+                names = list(ci.annotations)
+                if len(args) > len(names):
+                    raise Unsupported(f"too many arguments for dataclass {ci.name}", node)
+                given = dict(zip(names, args))
+                given.update(kwargs)
+                for n in names:
+                    if n in given:
+                        st.hwrite(n, r, self.to_z(st, given[n]))
+                    elif n in ci.class_attrs:
+                        st.hwrite(n, r, self.to_z(st, self.class_attr(st, ci, n, node)))
+                    else:
+                        raise Unsupported(f"missing dataclass field {n} for {ci.name}", node)
             return [Out("val", st, obj)]
         outs = []
         for o in self.inline_call(st, init, [obj] + args, kwargs, node):
@@ -408,13 +428,22 @@ class CallMixin:
 
     def havoc_modifies(self, st: State, mods: List[str], env: Dict[str, Val], func) -> None:
         for m in mods:
+            if m in st.ghost and "." not in m:
+                old = st.ghost[m]
+                st.ghost[m] = self.typed(st, fresh("gh_" + m), old.th)
+                continue
             if m == "*":
                 from .spec import PROTECTED_FIELDS
 
+                ghost_refs = [V.r(g.z) for g in st.ghost.values() if g.z is not None and hint_kind(g.th) in ("list", "dict", "set")]
                 for f in list(st.heap.keys()) + [k for k in st.heap0 if k not in st.heap]:
                     if f not in PROTECTED_FIELDS:
+                        before = st.harr(f)
                         st.havoc_field(f)
-                # lists / dicts allocated before the call stay well-formed
+                        if f.startswith("$") and not f.startswith("$static"):
+                            # ghost containers are not program state: a "*" clause does not cover them
+                            for gr in ghost_refs:
+                                st.heap[f] = z3.Store(st.heap[f], gr, z3.Select(before, gr))
                 continue
             if "." in m and not m.startswith("$") and not m.startswith("ns."):
                 # "obj.field": only that object's field is havoc'd
@@ -499,6 +528,13 @@ class CallMixin:
             env2["raised"] = rv
             for e in rz.ensures:
                 s2.assume(self.spec_bool(s2, e, env2, fi, old=pre_state))
+            from .sym import exc_ancestors
+
+            for xcls, posts in c.xensures.items():
+                if exc_canon_name(xcls) in exc_ancestors(rz.exc):
+                    for e in posts:
+                        if tracked(e):
+                            s2.assume(self.spec_bool(s2, e, env2, fi, old=pre_state))
             self.run_effects(s2, rz.effects, env2, fi, pre_state)
             s2.events.append(dict(event, outcome=("raise", cls, rz.exc)))
             s2.note(f"{text} raises {rz.exc} @{line}")
@@ -548,7 +584,7 @@ class CallMixin:
             if any(r not in st.ghost for r in roots):
                 continue
             s = self.spec_state(st, dict(env), fi)
-            s.pure = False
+            s.pure = True  # ghost statements never fork: expressions are evaluated as specifications
             s.old = old
             s.ghost = st.ghost
             outs = self.exec_block(tree, s)
@@ -582,15 +618,16 @@ class CallMixin:
             a = self.truthy(st, self.ev1(node.args[0], st))
             b = self.truthy(st, self.ev1(node.args[1], st))
             return vbool(a == b)
-        if fn in ("forall", "exists"):
+        if fn in ("forall", "exists", "forall_val"):
             lam = node.args[0]
             if not isinstance(lam, ast.Lambda):
                 raise Unsupported("forall needs a lambda", node)
             names = [a.arg for a in lam.args.args]
-            vars_ = [fresh(n, IntS) for n in names]
+            anyval = fn.endswith("_val")
+            vars_ = [fresh(n, V if anyval else IntS) for n in names]
             saved = dict(st.locals)
             for n, v in zip(names, vars_):
-                st.locals[n] = vint(v)
+                st.locals[n] = Val(v) if anyval else vint(v)
             st.no_type_facts = True
             try:
                 guards = []
@@ -610,7 +647,7 @@ class CallMixin:
             # typing facts about values read under the binder hold for every index in range (trusted typing)
             if side:
                 st.assume(z3.ForAll(vars_, z3.Implies(z3.And(guards), z3.And(side)) if guards else z3.And(side)))
-            if fn == "forall":
+            if fn in ("forall", "forall_val"):
                 inner = z3.Implies(z3.And(guards), body) if guards else body
                 return vbool(z3.ForAll(vars_, inner))
             return vbool(z3.Exists(vars_, z3.And(guards + [body])))
@@ -625,6 +662,13 @@ class CallMixin:
         if fn == "contains":
             a, b = self.ev1(node.args[0], st), self.ev1(node.args[1], st)
             return vbool(self.contains(st, a, b, node))
+        if fn == "is_empty":
+            c_ = self.ev1(node.args[0], st)
+            k_ = hint_kind(c_.th)
+            if k_ == "list":
+                return vbool(st.hread("$llen", V.r(c_.z)) == 0)
+            x_ = fresh("x", V)
+            return vbool(z3.And(st.hread("$dlen", V.r(c_.z)) == 0, z3.ForAll([x_], z3.Not(z3.Select(st.hread("$ddom", V.r(c_.z)), x_)))))
         if fn == "is_fresh":
             # is_fresh(x): x was allocated during the call (between the entry state and now)
             x = self.ev1(node.args[0], st)
